@@ -1222,10 +1222,25 @@ def pubkey_parse():
                     st.ghost['mat_parse'] = (o, a[0], ex.seq(a[0], st))
                     return [(st, E.VNone())]
                 r.hook(F + c, 'parse', scn.method_hook(mparse))
+            # the packet's own serialisation (contract: C18/PubKeyV4.__bytearray__) and the header's size: after reading, the length in the
+            # header is what will be WRITTEN (material that was not in the written form - an integer padded with zero octets - is re-encoded)
+            SER, HLEN = z3.Const('SERIALISED_AGAIN', B), z3.Int('octets_of_the_header')
+            st.pc += [HLEN >= 2, HLEN <= 7, z3.Length(SER) >= HLEN]
+            r.hook(PK, '__bytearray__', scn.method_hook(lambda ex, st, o, a: [(st, ex.new_buf(st, SER))]))
+            for hc in ('pgpy.packet.types.Header', 'pgpy.packet.types.VersionedHeader'):
+                r.hook(hc, '__len__', scn.mconst(E.VInt(HLEN)))
+
+            def upd(ex, st, o, a):
+                st.heap[('hdr', '_len')] = E.VInt(z3.Length(SER) - HLEN)
+                st.ghost['hlen_updated'] = True
+                return [(st, E.VNone())]
+            for pc_ in (PK, 'pgpy.packet.types.Packet', 'pgpy.packet.types.VersionedPacket'):
+                r.hook(pc_, 'update_hlen', scn.method_hook(upd))
             for pi, (s, v) in enumerate(r.call(me, [buf])):
                 if isinstance(v, E.Raise):
                     r.oblige(s, 'safety(%s)/p%d' % (v.exc.split(':')[0], pi), z3.BoolVal(False), v.where)
                     continue
+                r.oblige(s, 'afterwards-the-header-length-is-that-of-what-will-be-written/p%d' % pi, ex.as_int(s.heap[('hdr', '_len')]) == z3.Length(SER) - HLEN)
                 cr = s.heap.get(('pkt', '_created'))
                 okt = isinstance(cr, E.VExt) and cr.name == 'datetime' and len(cr.args) == 1
                 r.oblige(s, 'creation-time-is-the-four-octet-number/p%d' % pi,
